@@ -110,3 +110,39 @@ Fixpoint pass_from (n : pname) (p : policy) (ignore : list str) (m : memory) (ts
   end.
 Definition pass (n : pname) (p : policy) (ignore : list str) (ts : list (str * bool)) :=
   pass_from n p ignore mem0 ts.
+
+(** the same crawl as a trace: per token, [None] when the [ignore_words] guard of [RuleCP01::eval]
+    skips it, otherwise the call of [handle_segment] that is made (its raw text and its result).
+    This is what the recorder in cp01.rs sees of one crawl. *)
+Fixpoint trace_from (n : pname) (p : policy) (ignore : list str) (m : memory) (ts : list (str * bool))
+  : list (option (str * option str)) :=
+  match ts with
+  | [] => []
+  | t :: ts' =>
+      if mem (lower (fst t)) ignore then None :: trace_from n p ignore m ts'
+      else
+        let '(m', r) := handle n p m (fst t) (snd t) in
+        Some (fst t, r) :: trace_from n p ignore m' ts'
+  end.
+Definition trace (n : pname) (p : policy) (ignore : list str) (ts : list (str * bool)) :=
+  trace_from n p ignore mem0 ts.
+(** the calls of a trace, in order *)
+Fixpoint calls_of (tr : list (option (str * option str))) : list (str * option str) :=
+  match tr with
+  | [] => []
+  | None :: r => calls_of r
+  | Some c :: r => c :: calls_of r
+  end.
+(** a token with the verdict of its trace entry applied *)
+Definition apply_entry (t : str * bool) (e : option (str * option str)) : str * bool :=
+  match e with
+  | Some (_, Some f) => (f, snd t)
+  | _ => t
+  end.
+Fixpoint apply_trace (ts : list (str * bool)) (tr : list (option (str * option str))) : list (str * bool) :=
+  match ts, tr with
+  | t :: ts', e :: tr' => apply_entry t e :: apply_trace ts' tr'
+  | _, _ => ts
+  end.
+Definition reported (e : option (str * option str)) : bool :=
+  match e with Some (_, Some _) => true | _ => false end.
